@@ -31,7 +31,7 @@ RULE = ('pool of generated/copied files of self-describing formats (netcdf, IOAP
         'a probe, each in a freshly forked process; compared: reader chosen at every step and registry '
         'order after every step (model), probe reader and data digest vs a fresh process (oracle), '
         'auto-detected vs explicitly named open; non-trivial = history contains at least one '
-        'suffix-matched open of a different format than the probe; a punch file only bpch2 reads before ordinary punch files; a two-step gridded file (TSTEP unlimited) before files with a TSTEP of the same length (the unlimited flag is part of the digest)')
+        'suffix-matched open of a different format than the probe; a punch file only bpch2 reads before ordinary punch files; a punch file with a tracer its tracerinfo.dat does not list, opened repeatedly; an ICARTT open with keysubs= before ICARTT files whose column names contain those characters; a two-step gridded file (TSTEP unlimited) before files with a TSTEP of the same length (the unlimited flag is part of the digest)')
 ASSUMPTIONS = ['isMine() answers are measured once per pool file in a fresh process and passed to the model; '
                'the model then predicts every selection and the registry after every step',
                'process-global state other than the registry (module caches) is observed through the probe digest only']
@@ -161,6 +161,28 @@ def _build_pool():
         pth = os.path.join(bd, fn)
         open(pth, 'wb').write(byts)
         add(key, pth)
+    # a punch file with a tracer that has no line in the tracerinfo.dat next to it (named by its number), in its own directory
+    bu = os.path.join(d, 'bu')
+    os.makedirs(bu)
+    B.tables(cb, bu)
+    ti = os.path.join(bu, 'tracerinfo.dat')
+    first = cb['blocks'][0]['name']
+    kept = ''.join(l for l in open(ti).read().splitlines(True) if not l.startswith(first + ' '))
+    open(ti, 'w').write(kept)
+    for key, fn in (('bpchu_own', 'unlisted.bpch'), ('bpchu_noext', 'unlistedfile')):
+        pth = os.path.join(bu, fn)
+        open(pth, 'wb').write(B.encode(cb))
+        add(key, pth)
+    # an ICARTT file whose column names contain characters other readers' options replace ('-', '.'); and the shipped
+    # sample opened with substitutions asked for (history material only: format and keysubs named)
+    txt = open(tc.self_described_paths['ffi1001']).read().replace('OH_pptv', 'OH-pptv').replace('HO2_pptv', 'HO2.pptv')
+    for suffix, ext in (('own', '.ffi1001'), ('noext', '')):
+        pth = os.path.join(d, 'ffidash_%s%s' % (suffix, ext))
+        open(pth, 'w').write(txt)
+        add('ffidash_%s' % suffix, pth)
+    pth = os.path.join(d, 'x_ffisubs.ffi1001')
+    shutil.copyfile(tc.self_described_paths['ffi1001'], pth)
+    add('x_ffisubs', pth)
     # files of a user format whose reader is registered in the middle of a history
     for suffix, ext in (('own', '.rawgrid'), ('noext', '')):
         pth = os.path.join(d, 'rawgrid_%s%s' % (suffix, ext))
@@ -293,6 +315,8 @@ def _run_history(pool, classes, hist, probe, named):
         kw = dict(format=fmt) if fmt else {}
         if key == 'x_uamivle':
             kw = dict(format='uamiv', endian='little')
+        if key == 'x_ffisubs':
+            kw = dict(format='ffi1001', keysubs={'-': '_', '.': '_', '/': '_'})
         r = _open_one(pnc, pool[key], cid, **kw)
         r['reg'] = [k for k, v in g._readers]
         steps.append(r)
@@ -309,6 +333,8 @@ def _fresh(pool, classes, key, withreg=False):
     if withreg:
         _register_user_reader()
     kw = dict(format='uamiv', endian='little') if key == 'x_uamivle' else {}
+    if key == 'x_ffisubs':
+        kw = dict(format='ffi1001', keysubs={'-': '_', '.': '_', '/': '_'})
     return _open_one(pnc, pool[key], cid, **kw)
 
 
@@ -385,7 +411,12 @@ def gen(rng, tier):
                   ([['bpchr_own', 'bpch']], 'bpchp_own'),
                   # readers that mark a dimension unlimited before files with a dimension of the same name and length
                   ([['uamiv2_own', None]], 'hum_b_own'), ([['uamiv2_noext', None], ['hum_b_noext', None]], 'hum_b_own'),
-                  ([['hum_b_own', None]], 'uamiv2_noext'), ([['uamiv2_own', None]], 'lateral_boundary_own')]:
+                  ([['hum_b_own', None]], 'uamiv2_noext'), ([['uamiv2_own', None]], 'lateral_boundary_own'),
+                  # a punch file with an unlisted tracer opened more than once; options of one open and later opens
+                  ([['bpchu_own', None]], 'bpchu_own'), ([['bpchu_noext', None], ['bpchp_own', None]], 'bpchu_own'),
+                  ([['bpchu_own', 'bpch']], 'bpchu_noext'),
+                  ([['x_ffisubs', None]], 'ffidash_own'), ([['x_ffisubs', None], ['ffi1001_own', None]], 'ffidash_noext'),
+                  ([['ffidash_own', None]], 'x_ffisubs')]:
         out.append(dict(hist=h, probe=pr))
     # the history that used to break: an .nc open before an extension-less netCDF probe
     out.append(dict(hist=[['plain_own', None]], probe='ioapi_noext'))
@@ -423,6 +454,8 @@ def to_line(case, res):
         ext = _ext(P['files'][key]) or '-'
         if key == 'x_uamivle':
             fmt = 'uamiv'
+        if key == 'x_ffisubs':
+            fmt = 'ffi1001'
         opens.append('%s/%s/%s/%s' % (ext, '+'.join(map(str, yes)) or '-',
                                       '+'.join(map(str, a['raises'])) or '-', fmt or '-'))
     return 'c15 events %s %s' % (reg, ','.join(opens))
